@@ -127,14 +127,11 @@ func boundaryCases() []GCase {
 		}
 		for _, dg := range []int{1, 2} {
 			add(GCase{Family: "cap-130-history-proposes-the-candidates", N: 4, F: 1, Seq: uint64(24 + dg), Digest: dg, PrevKind: 2, Prev: &GOutcome{Surf: [][]GProp{surf}},
-				Obs: nObs(3, func(i int) GObs {
+				Obs: nObs(4, func(i int) GObs {
 					var perf []GRes
-					lo, hi := 0, 100
-					if i == 1 {
+					lo, hi := 0, 100 // oracles 0 and 1 vouch for 0..99, oracles 2 and 3 for 30..129: all 130 reach f+1
+					if i >= 2 {
 						lo, hi = 30, 130
-					}
-					if i == 2 {
-						lo, hi = 15, 115
 					}
 					for j := lo; j < hi; j++ {
 						perf = append(perf, honest(1, 3000+j%7, j+1))
